@@ -1,6 +1,8 @@
-/- Model-driver operations of cluster C (contacts: C05, C14): the hand-written model of interface.py. -/
+/- Model-driver operations of cluster C (contacts: C05, C14): the hand-written model of interface.py, and — when the request
+   carries `"gen": true` — the GENERATED translation of the same functions (Gen/Contacts.lean, namespace GenC) next to it. -/
 import PdbVerif.Driver.CommonC
 import PdbVerif.Model.Contacts
+import PdbVerif.Gen.Contacts
 
 namespace Driver.ModelC
 open Lean Driver Driver.CommonC
@@ -9,17 +11,50 @@ def args (r : RawArgs) : Model.ContactArgs :=
   { cutoff := r.cutoff, allchains := r.allchains, chain1 := r.chain1, chain2 := r.chain2,
     extend := r.extend, bb := r.bb, noH := r.noH, retPairs := r.pairs }
 
+/-- `"gen": true` in the request: answer with the hand model AND the generated function -/
+def wantsGen (j : Json) : Bool :=
+  match j.getObjVal? "gen" with
+  | .ok (.bool b) => b
+  | _ => false
+
+/-- an iteration order of Python sets other than the order of first insertion (sampled next to `id`; the theorems of
+    Props/C14K hold for every order that keeps the elements) -/
+def revOrder (l : List (Py.Str × Py.Str × Int)) : List (Py.Str × Py.Str × Int) := l.reverse
+
+/-- the GENERATED `get_contact_atoms` (Gen/Contacts.lean) -/
+def genAtoms (ord : List (Py.Str × Py.Str × Int) → List (Py.Str × Py.Str × Int)) (r : RawArgs) : Json :=
+  exceptJ (fun o => match o with
+    | Sum.inl d => pairsJ d
+    | Sum.inr d => chainsJ d)
+    (GenC.get_contact_atoms ord r.atoms r.cutoff r.allchains r.chain1 r.chain2 r.extend r.bb r.noH r.pairs)
+
+/-- the GENERATED `get_contact_residues` (Gen/Contacts.lean) -/
+def genResidues (ord : List (Py.Str × Py.Str × Int) → List (Py.Str × Py.Str × Int)) (r : RawArgs) : Json :=
+  exceptJ (fun o => match o with
+    | Sum.inl d => resPairsJ d
+    | Sum.inr d => resChainsJ d)
+    (GenC.get_contact_residues ord r.atoms r.cutoff r.allchains r.chain1 r.chain2 r.noH r.bb r.pairs)
+
+/-- hand model and generated function side by side; the second iteration order of sets only matters where a set is iterated
+    (`extend_to_residue`), and is evaluated on small tables -/
+def both (hand : Json) (gen : (List (Py.Str × Py.Str × Int) → List (Py.Str × Py.Str × Int)) → Json) (r : RawArgs) : Json :=
+  Json.mkObj ([("hand", hand), ("gen", gen id)] ++ (if r.extend && r.atoms.length ≤ 400 then [("gen_rev", gen revOrder)] else []))
+
 def op (name : String) (j : Json) : Except String (Option Json) := do
   match name with
   | "contact_atoms" =>
     let r ← rawArgs j
-    pure (some (exceptJ (fun o => match o with
+    let hand := exceptJ (fun o => match o with
       | Model.ContactOut.chains d => chainsJ d
-      | Model.ContactOut.pairs d => pairsJ d) (Model.contactAtoms r.atoms (args r))))
+      | Model.ContactOut.pairs d => pairsJ d) (Model.contactAtoms r.atoms (args r))
+    if wantsGen j then pure (some (both hand (fun ord => genAtoms ord r) r)) else pure (some hand)
   | "contact_residues" =>
     let r ← rawArgs j
-    if r.pairs then pure (some (exceptJ resPairsJ (Model.contactResiduePairs r.atoms (args r))))
-    else pure (some (exceptJ resChainsJ (Model.contactResidueSets r.atoms (args r))))
+    let hand := if r.pairs then exceptJ resPairsJ (Model.contactResiduePairs r.atoms (args r))
+      else exceptJ resChainsJ (Model.contactResidueSets r.atoms (args r))
+    if wantsGen j then pure (some (both hand (fun ord => genResidues ord r) r)) else pure (some hand)
+  | "gen_backbone_names" =>
+    pure (some (Json.arr (GenC.backbone_atoms.map strJ).toArray))
   | "contact_defaults" =>
     pure (some (Json.mkObj [("atoms", ratJ Gen.contact_cutoff_default), ("residues", ratJ Gen.contact_residues_cutoff_default)]))
   | "backbone_names" =>
